@@ -383,7 +383,15 @@ func MakeSimple(c Class, serial int) MV {
 		fmt.Sscanf(string(c[1:]), "%d", &n)
 		return Str{StrOfSize(n, tag)}
 	}
+	if len(c) > 1 && c[0] == 'b' && c[1] >= '0' && c[1] <= '9' {
+		// scalar with exactly this value (CBOR width boundaries: 23/24, 255/256, 65535/65536, 2^32-1/2^32)
+		var n uint64
+		fmt.Sscanf(string(c[1:]), "%d", &n)
+		return Scalar{n}
+	}
 	switch c {
+	case "giant": // larger than 64 KiB: far beyond any slab size, stored in a slab of its own
+		return Str{StrOfSize(70000, tag)}
 	case "t":
 		return Scalar{uint64(serial % 24)}
 	case "u4":
